@@ -150,6 +150,20 @@ func (vfs *MemFS) searchNode(path string, slMode slMode) (
 	return parent, parent, pi, vfs.err.FileExists
 }
 
+// subVolumes returns the volume table of a view of the file system rooted at the node root of the directory dir.
+// A view has one volume, the volume of dir, and the root of that volume is the root of the view :
+// the volumes of the file system the view was obtained from, the volume of dir included,
+// can't be reached through the view.
+func (vfs *MemFS) subVolumes(dir string, root *dirNode) volumes {
+	if vfs.volumes == nil {
+		return nil
+	}
+
+	absDir, _ := vfs.Abs(dir)
+
+	return volumes{avfs.VolumeName(vfs, absDir): root}
+}
+
 // createRootNode creates a root node for a file system.
 func (vfs *MemFS) createRootNode() *dirNode {
 	u := vfs.User()
